@@ -82,7 +82,64 @@ C17Values ==
     \cup {[kind |-> "map", pairs |-> <<<<"k1", v1>>, <<"k2", v2>>>>] : v1 \in Atoms, v2 \in Atoms}
     \cup {[kind |-> "map", pairs |-> [i \in 1..n |-> <<"key" \o ToString(i), "v&=%" \o ToString(i)>>]] : n \in {0, 3, 20}}
 
-Cases == CASE Mode = "c14" -> C14Values \cup C14Lines
+\* ---------------------------------------------------------------- C19
+\* the supported model: an object with one optional field of every kind; numbers travel as decimal / float lexemes
+\* an optional field is [p |-> present, v |-> value]; an absent field carries a neutral value of its own type
+P(v) == [p |-> TRUE, v |-> v]
+NoStr == [p |-> FALSE, v |-> ""]
+NoSeq == [p |-> FALSE, v |-> <<>>]
+IntLex == {"0", "1", "-1", "127", "-128", "255", "32767", "-32768", "65535", "2147483647", "-2147483648", "4294967295",
+           "9223372036854775807", "-9223372036854775808", "18446744073709551615", "9007199254740993", "-9007199254740993",
+           "170141183460469231731687303715884105727", "-170141183460469231731687303715884105728"}
+FloatLex == {"0.0", "-0.0", "0.1", "-0.1", "1.0", "1e-7", "1e21", "5e-324", "1.7976931348623157e308", "0.30000000000000004",
+             "123456.789", "-2.5e-3", "1e100", "3.0e0", "12345678901234567.0"}
+StrVals == {"", "plain", "with space", "a,b", "{x}", "[1]", ":", "true", "null", "123", "é😀"}
+LeafV(name, n) == [name |-> name, n |-> n]
+NoLeaf == [p |-> FALSE, v |-> LeafV("", "0")]
+InnerV(label, flag, leaf) == [label |-> label, flag |-> flag, leaf |-> leaf]
+NoObj == [p |-> FALSE, v |-> InnerV("", "false", NoLeaf)]
+Outer(sv, bv, iv, fv, obj, objs, ints, strs) ==
+    [kind |-> "json_object", s |-> sv, b |-> bv, i |-> iv, f |-> fv, obj |-> obj, objs |-> objs, ints |-> ints, strs |-> strs]
+BaseObj == P(InnerV("in", "true", P(LeafV("lf", "7"))))
+Base == Outer(P("text"), P("true"), P("42"), P("1.5"), BaseObj, P(<<LeafV("a", "1"), LeafV("b", "-2")>>), P(<<"1", "-2", "3">>), P(<<"x", "y z">>))
+AllAbsent == Outer(NoStr, NoStr, NoStr, NoStr, NoObj, NoSeq, NoSeq, NoSeq)
+Pick(p, v, none) == IF p THEN P(v) ELSE none
+C19Objects ==
+    {Outer(Pick(p[1], "text", NoStr), Pick(p[2], "false", NoStr), Pick(p[3], "-42", NoStr), Pick(p[4], "-0.25", NoStr),
+           IF p[5] THEN BaseObj ELSE NoObj, Pick(p[6], <<LeafV("a", "1")>>, NoSeq), Pick(p[7], <<"5">>, NoSeq), Pick(p[8], <<"s">>, NoSeq))
+        : p \in [1..8 -> BOOLEAN]}
+    \cup {[Base EXCEPT !.s = P(v)] : v \in StrVals}
+    \cup {[Base EXCEPT !.b = P(v)] : v \in {"true", "false"}}
+    \cup {[Base EXCEPT !.i = P(v)] : v \in IntLex}
+    \cup {[AllAbsent EXCEPT !.i = P(v)] : v \in IntLex}
+    \cup {[Base EXCEPT !.f = P(v)] : v \in FloatLex}
+    \cup {[AllAbsent EXCEPT !.f = P(v)] : v \in FloatLex}
+    \cup {[Base EXCEPT !.obj = P(InnerV(l, fl, lf))] : l \in {"", "x y"}, fl \in {"true", "false"},
+                                                        lf \in {NoLeaf, P(LeafV("", "0")), P(LeafV("n", "-9223372036854775808"))}}
+    \cup {[Base EXCEPT !.objs = P(os)] : os \in {<<>>, <<LeafV("only", "-1")>>, [k \in 1..64 |-> LeafV("k", ToString(k))]}}
+    \cup {[Base EXCEPT !.ints = P(xs)] : xs \in {<<>>, <<"0">>, <<"-1">>, <<"-1", "-2">>, [k \in 1..64 |-> ToString(k)]}}
+    \cup {[Base EXCEPT !.strs = P(xs)] : xs \in {<<>>, <<"">>, <<"a,b", "c">>, <<"[", "]">>, [k \in 1..64 |-> "s" \o ToString(k)]}}
+\* homogeneous arrays of every element type: [kind, ty, items (lexemes)]
+Arr(ty, items) == [kind |-> "json_array", ty |-> ty, items |-> items]
+Extremes(ty) ==
+    CASE ty = "i8" -> {"-128", "127"} [] ty = "i16" -> {"-32768", "32767"} [] ty = "i32" -> {"-2147483648", "2147483647"}
+      [] ty = "i64" -> {"-9223372036854775808", "9223372036854775807"}
+      [] ty = "i128" -> {"-170141183460469231731687303715884105728", "170141183460469231731687303715884105727"}
+      [] ty = "u8" -> {"0", "255"} [] ty = "u16" -> {"0", "65535"} [] ty = "u32" -> {"0", "4294967295"}
+      [] ty = "u64" -> {"0", "18446744073709551615"} [] ty = "u128" -> {"0", "340282366920938463463374607431768211455"}
+IntTypes == {"i8", "i16", "i32", "i64", "i128", "u8", "u16", "u32", "u64", "u128"}
+C19Arrays ==
+    UNION {{Arr(ty, <<>>), Arr(ty, <<"0">>), Arr(ty, <<"1", "2">>), Arr(ty, [k \in 1..64 |-> ToString(k)])}
+           \cup {Arr(ty, <<e>>) : e \in Extremes(ty)} \cup {Arr(ty, <<"1", e, "0">>) : e \in Extremes(ty)} : ty \in IntTypes}
+    \cup {Arr(ty, <<"-1">>) : ty \in {"i8", "i16", "i32", "i64", "i128"}}
+    \cup {Arr("f64", xs) : xs \in {<<>>, <<"0.0">>, <<"-0.0", "0.1">>, <<"1e21", "5e-324", "1.7976931348623157e308">>, <<"0.30000000000000004">>, <<"-2.5e-3", "1e-7">>}}
+    \cup {Arr("f32", xs) : xs \in {<<>>, <<"0.0">>, <<"0.1", "-0.1">>, <<"3.4028235e38", "1e-45">>}}
+    \cup {Arr("string", xs) : xs \in {<<>>, <<"">>, <<"a">>, <<"a,b", "c d">>, <<"[x]", "{y}">>, <<"é😀", "z">>, [k \in 1..64 |-> "s" \o ToString(k)]}}
+    \cup {Arr("bool", xs) : xs \in {<<>>, <<"true">>, <<"false", "true", "false">>}}
+    \cup {Arr("null", xs) : xs \in {<<>>, <<"null">>, <<"null", "null">>}}
+
+Cases == CASE Mode = "c19" -> C19Objects \cup C19Arrays
+           [] Mode = "c14" -> C14Values \cup C14Lines
            [] Mode = "c15" -> C15Values \cup {AllStatuses} \cup C15Corrupt
            [] Mode = "c16" -> C16Values \cup C16Corrupt \cup C16Extract
            [] Mode = "c17" -> C17Values
